@@ -251,7 +251,15 @@ class Expander:
         if self.base_funcs is None:
             return False
         q = '%s.%s%s' % (mname, (cname + '.') if cname else '', fname)
-        return q not in self.base_funcs
+        if q in self.base_funcs:
+            return False
+        if cname:
+            # a method that the reference inventory knows under a subclass of its present owner was only moved to a new
+            # base class: it is not a helper to inline
+            for sub in self.subclasses.get((mname, cname), ()):
+                if '%s.%s.%s' % (sub[0], sub[1], fname) in self.base_funcs:
+                    return False
+        return True
 
     def _callee_ok(self, fdef):
         if fdef.decorator_list:
@@ -455,8 +463,9 @@ class Expander:
         return any(isinstance(x, ast.Return) for x in _walk_no_nested(stmts))
 
     def _convert_returns(self, stmts, rname, cont):
-        """structured conversion: `return e` -> `rname = e`; code after an `if` that returns on one side is moved into
-        the other side.  Returns (new_stmts, always_assigns_result)."""
+        """structured conversion in continuation-passing style: `return e` -> `rname = e` (and nothing after it);
+        an `if` that contains a return receives, in each branch that can fall through, its own copy of everything that
+        follows it (`cont`).  Returns (new_stmts, always_assigns_result); None when a return sits inside a loop/try."""
         out = []
         for i, s in enumerate(stmts):
             if isinstance(s, ast.Return):
@@ -465,35 +474,21 @@ class Expander:
                                                         lineno=s.lineno, col_offset=0), s))
                 return out, True
             if isinstance(s, ast.If) and self._contains_return([s]):
-                rest = stmts[i + 1:]
-                b, br = self._convert_returns(s.body, rname, rest)
-                o, orr = self._convert_returns(s.orelse, rname, rest)
+                k = list(stmts[i + 1:]) + list(cont)
+                b, br = self._convert_returns(s.body, rname, k)
+                o, orr = self._convert_returns(s.orelse, rname, k)
                 if b is None or o is None:
                     return None, False
-                if br and orr:
-                    out.append(ast.copy_location(ast.If(test=s.test, body=b, orelse=o), s))
-                    return out, True
-                if rest:
-                    r1, rr1 = self._convert_returns(copy.deepcopy(rest), rname, [])
-                    if r1 is None:
-                        return None, False
-                    if br and not orr:
-                        out.append(ast.copy_location(ast.If(test=s.test, body=b, orelse=o + r1), s))
-                        return out, rr1
-                    if orr and not br:
-                        out.append(ast.copy_location(ast.If(test=s.test, body=b + r1, orelse=o or []), s))
-                        return out, rr1
-                    # returns nested deeper on some paths of both sides: duplicate the continuation
-                    r2, rr2 = self._convert_returns(copy.deepcopy(rest), rname, [])
-                    bb = b if self._always(b, rname) else b + r1
-                    oo = o if self._always(o, rname) else o + r2
-                    out.append(ast.copy_location(ast.If(test=s.test, body=bb or [ast.Pass()], orelse=oo), s))
-                    return out, rr1 and rr2
                 out.append(ast.copy_location(ast.If(test=s.test, body=b or [ast.Pass()], orelse=o), s))
-                return out, False
+                return out, br and orr
             if self._contains_return([s]):
                 return None, False
             out.append(s)
+        if cont:
+            r, rr = self._convert_returns(copy.deepcopy(list(cont)), rname, [])
+            if r is None:
+                return None, False
+            return out + r, rr
         return out, False
 
     def _always(self, stmts, rname):
